@@ -253,6 +253,7 @@ func runCheck(repo, prop, tier string, keep bool, only string, noEvidence bool) 
 	var funcsUnder []string
 	var undecided []string
 	havoc := 0
+	inconsistent := 0
 	usedLib := map[string]bool{}
 	usedCtr := map[string]bool{}
 	var assumed []string
@@ -276,6 +277,11 @@ func runCheck(repo, prop, tier string, keep bool, only string, noEvidence bool) 
 			continue
 		}
 		funcsUnder = append(funcsUnder, fr.Name)
+		if fr.Consistency == "unsat" {
+			// contradictory assumptions: every obligation of this function is vacuous
+			fmt.Printf("ERROR inconsistent-assumptions: %s (contracts, type invariants or library models contradict each other; nothing proved about this function is believed)\n", fr.Name)
+			inconsistent++
+		}
 		havoc += fr.HavocSites
 		for _, l := range fr.UsedLib {
 			usedLib[l] = true
@@ -329,6 +335,9 @@ func runCheck(repo, prop, tier string, keep bool, only string, noEvidence bool) 
 	for _, v := range violations {
 		fmt.Println(v)
 		exit = 1
+	}
+	if inconsistent > 0 && exit == 0 {
+		exit = 2
 	}
 	if total == 0 && len(violations) == 0 {
 		fmt.Fprintf(os.Stderr, "govc: property %s generated no obligations (vacuous check)\n", prop)
